@@ -55,6 +55,7 @@ type Msg struct{ ID string }
 
 // Entry is one message as seen by a behaviour.
 type Entry struct {
+	At     int64 // virtual time
 	Seq    int
 	Actor  string // path
 	Seg    int    // incarnation segment of that path (bumped at spawn / ActorRestartedEvent)
@@ -422,7 +423,7 @@ func (a *Act) Record(ctx vivid.ActorContext) {
 		s = snd.GetPath()
 	}
 	w.seq++
-	e := Entry{Seq: w.seq, Actor: path, Seg: w.seg[path], Inst: a.Inst, Beh: a.Beh, Type: t, Detail: d, Sender: s}
+	e := Entry{At: vrt.Now(), Seq: w.seq, Actor: path, Seg: w.seg[path], Inst: a.Inst, Beh: a.Beh, Type: t, Detail: d, Sender: s}
 	w.Entries = append(w.Entries, e)
 	incs := w.Incs[path]
 	if len(incs) == 0 || incs[len(incs)-1].Ctx != ctx || w.RestartedPending[path] {
